@@ -42,7 +42,7 @@ fn literal_leaves() -> Vec<(String, RE)> {
     }
     for (l, t) in [
         ("empty", ""), ("quotes", "\"\""), ("ends-with-quote", "say \"hi\""), ("starts-with-quote", "\"hi\" said"), ("ends-with-backslash-quote", "a\\\""), ("only-quote", "\""), ("backslashes", "\\\\"), ("quote-backslash", "\\\""), ("backslash-n", "\\n"), ("newline-tab-cr", "\n\t\r"), ("slashes", "// not a comment"),
-        ("non-bmp", "😀\u{10FFFF}"), ("bom", "\u{feff}"), ("line-sep", "\u{2028}\u{2029}\u{85}"), ("escape-lookalike", "\\u{41}"), ("trailing-backslash", "abc\\"), ("spaces", "  a  "),
+        ("non-bmp", "😀\u{10FFFF}"), ("long-mixed", "The \"quick\" brown \\fox\\ jumps\nover\tthe lazy dog — ünïcödé 日本語 😀 // not a comment \\u{41} \\n \"\" end"), ("bom", "\u{feff}"), ("line-sep", "\u{2028}\u{2029}\u{85}"), ("escape-lookalike", "\\u{41}"), ("trailing-backslash", "abc\\"), ("spaces", "  a  "),
     ] {
         s(l, t.to_string());
     }
@@ -139,6 +139,27 @@ fn structural_cases(tier: Tier) -> Vec<Case> {
                         }
                     }
                 }
+            }
+        }
+    }
+    // moderate size: long lists and maps, deep nesting of every kind
+    {
+        let items: Vec<RE> = (0..12).map(|i| if i % 2 == 0 { RE::reff(&format!("x{i}")) } else { RE::Val(RV::Int(i - 6)) }).collect();
+        add("list-12".into(), RE::List(items.clone()));
+        add("map-12".into(), RE::Map(items.iter().cloned().enumerate().map(|(i, e)| (format!("k{i}"), e)).collect()));
+        for k in &ks {
+            let mut t = RE::reff("x");
+            for _ in 0..6 {
+                t = (k.build)((0..k.arity).map(|i| if i == 0 { t.clone() } else { RE::reff("y") }).collect());
+            }
+            add(format!("{}-nested-6-left", k.label), t);
+            if k.arity >= 2 {
+                let mut t = RE::reff("x");
+                for _ in 0..6 {
+                    let last = k.arity - 1;
+                    t = (k.build)((0..k.arity).map(|i| if i == last { t.clone() } else { RE::reff("y") }).collect());
+                }
+                add(format!("{}-nested-6-right", k.label), t);
             }
         }
     }
